@@ -354,6 +354,14 @@ func (bA *BitArray) FromProto(protoBitArray *kprotobits.BitArray) {
 		return
 	}
 
+	// The number of words must be the one the number of bits calls for; an array whose Bits and Elems
+	// disagree (or whose Bits do not fit an int) makes every later operation index out of range.
+	// Such an array is taken as empty.
+	if protoBitArray.Bits < 0 || protoBitArray.Bits > 1<<31-1 || uint64(len(protoBitArray.Elems)) != (uint64(protoBitArray.Bits)+63)/64 {
+		bA.Bits, bA.Elems = 0, nil
+		return
+	}
+
 	bA.Bits = uint(protoBitArray.Bits)
 	if len(protoBitArray.Elems) > 0 {
 		bA.Elems = protoBitArray.Elems
